@@ -998,10 +998,10 @@ i_SAL = i_SHL
 def i_ROL(i, fmap):
     op1 = i.operands[0]
     size = op1.size
-    count = fmap(i.operands[1] & 0x1F) % size
+    count = fmap(i.operands[1] & 0x1F)
     fmap[eip] = fmap[eip] + i.length
     a = fmap(op1)
-    x = ROL(a, count)
+    x = ROL(a, count % size)
     if count._is_cst:
         if count.value == 0:
             return
@@ -1019,10 +1019,10 @@ def i_ROL(i, fmap):
 def i_ROR(i, fmap):
     op1 = i.operands[0]
     size = op1.size
-    count = fmap(i.operands[1] & 0x1F) % size
+    count = fmap(i.operands[1] & 0x1F)
     fmap[eip] = fmap[eip] + i.length
     a = fmap(op1)
-    x = ROR(a, count)
+    x = ROR(a, count % size)
     if count._is_cst:
         if count.value == 0:
             return
